@@ -152,12 +152,13 @@ UNTYPED_DOMAIN = """(define (domain untyped) (:requirements :strips)
 
 CALLS = ["ground", "applicable", "apply", "apply_allow", "apply_skip", "reapply_result", "second_operator_apply", "str_action",
          "print_plain", "print_simplified", "serialize", "export", "new_domain", "shallow_copy", "parse_other", "parse_untyped",
-         "combine_domains", "typed_action_call"]
+         "combine_domains", "typed_action_call", "applicable_other_state", "apply_other_state"]
 
 
 class History:
-    def __init__(self, world, state, task):
+    def __init__(self, world, state, task, state2=None):
         self.world, self.state, self.task = world, state, task
+        self.state2 = state2 if state2 is not None else state
         self.op = callsym.make_operator(world, task)
         self.results = []
 
@@ -170,6 +171,12 @@ class History:
             return ("none",)
         if call == "applicable":
             return ("bool", bool(op.is_applicable(s)))
+        if call == "applicable_other_state":
+            op.is_applicable(self.state2)
+            return ("none",)
+        if call == "apply_other_state":
+            op.apply(self.state2, allow_inapplicable_actions=True)
+            return ("none",)
         if call in ("apply", "apply_allow", "apply_skip"):
             kw = {"apply": {}, "apply_allow": {"allow_inapplicable_actions": True},
                   "apply_skip": {"skip_validation": True}}[call]
@@ -258,7 +265,13 @@ def run_history(task):
             world = lib.World(task["domain_text"], task["objects"])
             instrument(world.domain)
             state, keys = callsym.build_state(ctx, world, prep)
-            h = History(world, state, task)
+            # a second, independent state over the same facts with its own fluent values; optionally the first state
+            # leaves one fluent undefined (the library reads an undefined fluent as 0)
+            fl2 = {f: SymReal(z3.Real("v2" + f)) for f in prep.all_fluents}
+            state2, _ = world.make_state({a: SymBool(prep.vars.atom(a)) for a in prep.sym_atoms}, fl2)
+            if task.get("omit") and task["omit"] in keys:
+                del state.state_fluents[keys[task["omit"]]]
+            h = History(world, state, task, state2)
             del WRITES[:]
             v1 = h.run(c1)
             writes1 = list(WRITES)
@@ -336,7 +349,10 @@ def replay_history(task, state):
     fl = {f: 0.0 for f in prep.all_fluents}
     fl.update(state.get("fluents", {}))
     s, keys = callsym.concrete_state(world, prep, {a: True for a in state.get("atoms_true", [])}, fl)
-    h = History(world, s, task)
+    s2, _ = callsym.concrete_state(world, prep, {a: True for a in state.get("atoms_true", [])}, {f: v + 3.5 for f, v in fl.items()})
+    if task.get("omit") and task["omit"] in keys:
+        del s.state_fluents[keys[task["omit"]]]
+    h = History(world, s, task, s2)
 
     class C:  # concrete comparisons need no solver
         @staticmethod
@@ -397,6 +413,14 @@ def tasks_for(tier, seed):
                 tasks.append(dict(domain_text=text, action="act", args=args, objects=dict(G.OBJECTS), mode="apply",
                                   label=f"pre {sexpr.render(pre)} eff {sexpr.render(eff)}", c1=c1, c2=c2, cap=8, frame_atoms=0,
                                   max_paths=400 if tier == "quick" else 4000))
+        # the same operator object used on another state in between; the first state leaves a fluent undefined
+        if "(g)" in sexpr.render(pre) + sexpr.render(eff):
+            for c1, c2 in (("applicable", "applicable_other_state"), ("apply_allow", "apply_other_state"),
+                           ("apply_allow", "applicable_other_state"), ("applicable", "apply_other_state")):
+                for omit in (None, "(g)"):
+                    tasks.append(dict(domain_text=text, action="act", args=args_list[0], objects=dict(G.OBJECTS), mode="apply",
+                                      label=f"[first state omits {omit}] pre {sexpr.render(pre)} eff {sexpr.render(eff)}", c1=c1, c2=c2,
+                                      cap=8, frame_atoms=0, omit=omit, max_paths=400 if tier == "quick" else 4000))
     return tasks
 
 
